@@ -9,6 +9,7 @@ package c17
 import (
 	"bytes"
 	"context"
+	"encoding/json"
 	"fmt"
 	"io"
 	"math/rand/v2"
@@ -169,11 +170,20 @@ func TestC17(t *testing.T) {
 		}
 		timeline(t, r, dir, i)
 	}
+	if r.Only < 0 {
+		for i := 0; i < r.N(6, 40); i++ {
+			alignedWriter(t, r, dir, i)
+		}
+		for i := 0; i < r.N(4, 30); i++ {
+			unreadableFile(t, r, dir, i)
+		}
+		completeFileAtAllTimes(t, r, dir)
+	}
 	stop()
 	if r.Only < 0 {
 		smoke(t, r, dir)
 	}
-	r.Require("uploads_checked", "failed_uploads", "retries_after_failure", "idle_periods_checked", "cancellations_checked", "uploads_with_write_during_window", "timelines", "suppressed_uploads_without_change", "uploads_hanging_past_the_limit", "timelines_on_reopened_database", "lone_activations", "failed_writes_in_timelines", "lone_version_deletions")
+	r.Require("uploads_checked", "failed_uploads", "retries_after_failure", "idle_periods_checked", "cancellations_checked", "uploads_with_write_during_window", "timelines", "suppressed_uploads_without_change", "uploads_hanging_past_the_limit", "timelines_on_reopened_database", "lone_activations", "uploads_racing_a_write", "backups_over_an_unreadable_file", "reads_of_the_file_during_saves", "failed_writes_in_timelines", "lone_version_deletions")
 	r.Rule("seeded timelines of ~20 events over virtual hours: sleep d in {0,1s,30s,59s,60s,61s,5min,1h}, bursts of 1-3 real database writes (put/activate/delete), endpoint mode switches (ok / 403 not retryable / 500 retryable / hold for d with a write landing inside the held upload), then a quiet tail, an idle hour and cancellation at a random point of the minute cycle. Distinct = (endpoint mode at upload, writes during window?, outcome) and the smoke case through server.New")
 }
 
@@ -583,3 +593,192 @@ func smoke(t *testing.T, r *evid.Run, dir string) {
 }
 
 var _ = rand.IntN
+
+// alignedWriter: a client writes every minute on the minute - exactly when the backup task wakes up - so that
+// the task's read of the file and a save of the database run at the same time (for real: both goroutines are
+// runnable at the same virtual instant). The database path is a regular file or a symbolic link. Every object
+// uploaded is a complete database file: byte for byte one of the states the file has been in.
+func alignedWriter(t *testing.T, r *evid.Run, dir string, idx int) {
+	r.Eval(1)
+	sdir := filepath.Join(dir, fmt.Sprintf("aligned%d", idx))
+	os.MkdirAll(sdir, 0o700)
+	defer os.RemoveAll(sdir)
+	path := filepath.Join(sdir, "db")
+	symlinked := idx%2 == 1
+	if symlinked {
+		path = filepath.Join(sdir, "database")
+		os.Symlink(filepath.Join(sdir, "database.real"), path)
+	}
+	synctest.Test(t, func(t *testing.T) {
+		progress.Add(1)
+		t0 := time.Now()
+		kdb, err := db.Open(path, realdb.DummyKey("c17a"), audit.New(io.Discard))
+		if err != nil {
+			t.Fatal(err)
+		}
+		su := realdb.Super()
+		big := bytes.Repeat([]byte("0123456789abcdef"), 1<<15) // half a megabyte: a save takes a while
+		var smu sync.Mutex
+		states := map[string]bool{}
+		snap := func() {
+			b, _ := os.ReadFile(path)
+			smu.Lock()
+			states[string(b)] = true
+			smu.Unlock()
+		}
+		kdb.Put(su, "bulk", big)
+		snap()
+		ep := &endpoint{t0: t0, mode: "ok"}
+		ctx, cancel := context.WithCancel(context.Background())
+		done := make(chan struct{})
+		go func() { defer close(done); server.VerifRunPeriodicBackup(ctx, kdb, newS3(ep), "backup-bucket") }()
+		wdone := make(chan struct{})
+		go func() {
+			defer close(wdone)
+			for k := 0; k < 40; k++ {
+				time.Sleep(time.Minute)
+				progress.Add(1)
+				kdb.Put(su, fmt.Sprintf("k%d", k%3), []byte(fmt.Sprintf("v-%d-%d", idx, k)))
+				snap()
+			}
+		}()
+		<-wdone
+		time.Sleep(3 * time.Minute)
+		cancel()
+		<-done
+		n := 0
+		for _, in := range invocations(ep.snapshot()) {
+			if !in.OK {
+				continue
+			}
+			n++
+			r.Count("uploads_racing_a_write", 1)
+			smu.Lock()
+			known := states[string(in.Body)]
+			smu.Unlock()
+			if !known {
+				r.Violation("upload-not-a-file-snapshot", idx, fmt.Sprintf("aligned writer case %d (database path is a symbolic link: %t): the object uploaded at %v (%d bytes) is not a state the database file has ever been in (a complete file is about %d bytes)", idx, symlinked, in.Start, len(in.Body), len(big)*4/3), nil)
+				return
+			}
+		}
+		if n < 10 {
+			r.Inconclusive(fmt.Sprintf("aligned writer case %d: only %d uploads", idx, n))
+		}
+		r.Distinct(fmt.Sprintf("aligned writer symlink=%t", symlinked))
+	})
+}
+
+// unreadableFile: for a few minutes the database file cannot be read (its directory is away: a volume being
+// remounted). The backup task notes the failure and tries again a minute later, like after any failed upload -
+// it does not spin - and once the file is back the pending backup is made.
+func unreadableFile(t *testing.T, r *evid.Run, dir string, idx int) {
+	r.Eval(1)
+	sdir := filepath.Join(dir, fmt.Sprintf("unreadable%d", idx))
+	os.MkdirAll(sdir, 0o700)
+	defer os.RemoveAll(sdir)
+	path := filepath.Join(sdir, "db")
+	synctest.Test(t, func(t *testing.T) {
+		progress.Add(1)
+		t0 := time.Now()
+		kdb, err := db.Open(path, realdb.DummyKey("c17u"), audit.New(io.Discard))
+		if err != nil {
+			t.Fatal(err)
+		}
+		su := realdb.Super()
+		kdb.Put(su, "seed", []byte("seed"))
+		ep := &endpoint{t0: t0, mode: "ok"}
+		ctx, cancel := context.WithCancel(context.Background())
+		done := make(chan struct{})
+		go func() { defer close(done); server.VerifRunPeriodicBackup(ctx, kdb, newS3(ep), "backup-bucket") }()
+		time.Sleep(time.Duration(10+idx*7) * time.Second)
+		kdb.Put(su, "pending", []byte("to be backed up")) // a change the task owes a backup for
+		want, _ := os.ReadFile(path)
+		synctest.Wait()
+		realdb.BreakDir(path, func() {
+			progress.Add(1)
+			time.Sleep(time.Duration(2+idx%4) * time.Minute) // the task wakes up in here, more than once, and cannot read the file
+			synctest.Wait()
+		})
+		progress.Add(1)
+		time.Sleep(2*time.Minute + 5*time.Second)
+		synctest.Wait()
+		ok := false
+		for _, in := range invocations(ep.snapshot()) {
+			if in.OK && bytes.Equal(in.Body, want) {
+				ok = true
+			}
+		}
+		r.Count("backups_over_an_unreadable_file", 1)
+		if !ok {
+			r.Violation("no-convergence", idx, fmt.Sprintf("unreadable-file case %d: the database file was away for a few minutes; two minutes after it came back the pending change has not been backed up", idx), map[string]any{"uploads": invocations(ep.snapshot())})
+		}
+		// cancellation still ends the task at once
+		cancel()
+		select {
+		case <-done:
+		case <-time.After(10 * time.Second):
+			r.Violation("late-termination", idx, fmt.Sprintf("unreadable-file case %d: the task does not end within 10 s of cancellation", idx), nil)
+		}
+		r.Distinct("database file unreadable for a while")
+	})
+}
+
+// completeFileAtAllTimes (real time): what the backup task uploads is what it reads from the database path at
+// some moment of its own choosing, while clients go on writing. So at EVERY moment the path - a regular file, or
+// a symbolic link to one - must read as one complete database file. Readers hammer the path the way the task
+// reads it (one os.ReadFile) while the real database saves as fast as it can.
+func completeFileAtAllTimes(t *testing.T, r *evid.Run, dir string) {
+	for li, symlinked := range []bool{false, true} {
+		sdir := filepath.Join(dir, fmt.Sprintf("complete%d", li))
+		os.MkdirAll(sdir, 0o700)
+		path := filepath.Join(sdir, "db")
+		if symlinked {
+			path = filepath.Join(sdir, "database")
+			os.Symlink(filepath.Join(sdir, "database.real"), path)
+		}
+		kdb, err := db.Open(path, realdb.DummyKey("c17c"), audit.New(io.Discard))
+		if err != nil {
+			t.Fatal(err)
+		}
+		su := realdb.Super()
+		kdb.Put(su, "bulk", bytes.Repeat([]byte("0123456789abcdef"), 1<<14))
+		stop := make(chan struct{})
+		var wg sync.WaitGroup
+		var bad atomic.Int32
+		var reads atomic.Int64
+		for g := 0; g < 4; g++ {
+			wg.Add(1)
+			go func() {
+				defer wg.Done()
+				for {
+					select {
+					case <-stop:
+						return
+					default:
+					}
+					b, err := os.ReadFile(path)
+					reads.Add(1)
+					var w struct {
+						Version int
+						DEK, DB []byte
+					}
+					if err != nil || json.Unmarshal(b, &w) != nil || len(w.DB) == 0 {
+						if bad.Add(1) == 1 {
+							r.Violation("upload-not-a-file-snapshot", -1, fmt.Sprintf("while the database was saving, a read of its path (a symbolic link: %t) returned %d bytes that are not a complete database file (err %v): a backup taken at that moment would be useless", symlinked, len(b), err), nil)
+						}
+						return
+					}
+				}
+			}()
+		}
+		deadline := time.Now().Add(time.Duration(r.N(1200, 8000)) * time.Millisecond)
+		for k := 0; time.Now().Before(deadline) && bad.Load() == 0; k++ {
+			kdb.Put(su, fmt.Sprintf("k%d", k%5), []byte(fmt.Sprintf("v%d", k)))
+		}
+		close(stop)
+		wg.Wait()
+		r.Eval(1)
+		r.Count("reads_of_the_file_during_saves", int(reads.Load()))
+		r.Distinct(fmt.Sprintf("complete file at all times symlink=%t", symlinked))
+	}
+}
